@@ -150,6 +150,8 @@ pub struct SrvCfg {
     pub closure_c11: bool,
     /// C11: a request is yielded by the requests() call that consumes its last byte, never later
     pub yield_promptly: bool,
+    /// C18: the kill switch is installed after start_server() instead of before
+    pub kill_switch_late: bool,
 }
 
 impl SrvCfg {
@@ -177,6 +179,7 @@ impl SrvCfg {
             must_yield_after: vec![],
             closure_c11: false,
             yield_promptly: false,
+            kill_switch_late: false,
         }
     }
     pub fn to_json(&self) -> Value {
@@ -191,7 +194,7 @@ impl SrvCfg {
             "max_depth": self.max_depth, "closure_all": self.closure_all, "closure_witness": self.closure_witness,
             "release_check": self.release_check, "flush_probe": self.flush_probe, "twin_without_kill": self.twin_without_kill,
             "respond_any": self.respond_any, "max_outstanding_for_respond": self.max_outstanding_for_respond,
-            "never_yield": self.never_yield, "must_yield_after": self.must_yield_after, "closure_c11": self.closure_c11, "yield_promptly": self.yield_promptly,
+            "never_yield": self.never_yield, "must_yield_after": self.must_yield_after, "closure_c11": self.closure_c11, "yield_promptly": self.yield_promptly, "kill_switch_late": self.kill_switch_late,
         })
     }
     pub fn from_json(v: &Value) -> SrvCfg {
@@ -243,6 +246,7 @@ impl SrvCfg {
             must_yield_after: pairs(&v["must_yield_after"]),
             closure_c11: b("closure_c11"),
             yield_promptly: b("yield_promptly"),
+            kill_switch_late: b("kill_switch_late"),
         }
     }
 }
@@ -412,13 +416,18 @@ impl<'a> World<'a> {
         let mut server = unsafe { HttpServer::new_from_fd(lfd) }.expect("HttpServer::new_from_fd");
         let epfd = server.epoll().as_raw_fd();
         let mut kill = None;
+        if cfg.kill_switch_late {
+            server.start_server().expect("start_server");
+        }
         if with_kill_switch {
             let ev = EventFd::new(libc::EFD_NONBLOCK).expect("eventfd");
             let mine = ev.try_clone().expect("eventfd clone");
             server.add_kill_switch(ev).expect("add_kill_switch");
             kill = Some(mine);
         }
-        server.start_server().expect("start_server");
+        if !cfg.kill_switch_late {
+            server.start_server().expect("start_server");
+        }
         let devnull = cvt(unsafe { libc::open(b"/dev/null\0".as_ptr() as *const libc::c_char, libc::O_RDWR | libc::O_CLOEXEC) }, "open /dev/null");
         let mut clients = vec![];
         for _ in &cfg.clients {
@@ -1408,17 +1417,24 @@ impl<'a> World<'a> {
             if c.shut_rd {
                 // The server cannot know that this client stopped reading until a write fails
                 // (and a write is only attempted when the socket is writable). If it does know
-                // - it marked the connection closed - and everything is answered, it must be gone.
-                let closed_by_server = c.server_fd.map(|fd| self.server_table().iter().any(|e| e.0 == fd && e.1 == 2)).unwrap_or(false);
-                if closed_by_server {
-                    who.push(format!("client {} shut RD, a write failed and the server marked it closed: must be gone", i));
-                    continue;
+                // - it marked the connection closed, or already released it - and everything is
+                // answered, the connection must be gone; otherwise it is legitimately held.
+                let entry = c.server_fd.and_then(|fd| self.server_table().iter().find(|e| e.0 == fd).map(|e| e.1));
+                match entry {
+                    None => {
+                        who.push(format!("client {} shut RD, already released", i));
+                        continue;
+                    }
+                    Some(2) => {
+                        who.push(format!("client {} shut RD, a write failed and the server marked it closed: must be gone", i));
+                        continue;
+                    }
+                    Some(_) => {
+                        who.push(format!("client {} shut RD but the server has had no failed write yet: held", i));
+                        must += 1;
+                        continue;
+                    }
                 }
-            }
-            if c.shut_rd {
-                may += 1;
-                who.push(format!("client {} shut RD (either)", i));
-                continue;
             }
             // a connected client that has not been accepted yet holds no server descriptor
             must += 1;
